@@ -72,6 +72,7 @@ import (
 	"fmt"
 	"go/ast"
 	"go/token"
+	"regexp"
 	"strings"
 )
 
@@ -1108,10 +1109,14 @@ func (g *ogen) expr(x ast.Expr, env *oenv, hint string, k ovkont) lnode {
 				break
 			}
 			kind, cell := "", ""
-			switch src(cl) {
-			case "object{val: map[string]field{}}":
+			// an empty map / an empty slice, with or without a capacity hint that is syntactically a length
+			// (capacity is not modelled: R2)
+			emptyObj := regexp.MustCompile(`^object\{val: (map\[string\]field\{\}|make\(map\[string\]field(, len\([A-Za-z_][A-Za-z0-9_.]*\))?\))\}$`)
+			emptyList := regexp.MustCompile(`^list\{val: (\[\]field\{\}|make\(\[\]field, 0(, len\([A-Za-z_][A-Za-z0-9_.]*\))?\))\}$`)
+			switch {
+			case emptyObj.MatchString(src(cl)):
 				kind, cell = "object", "Cell.obj [] 0"
-			case "list{val: []field{}}":
+			case emptyList.MatchString(src(cl)):
 				kind, cell = "list", "Cell.list [] 0"
 			default:
 				failAt(x, "unsupported allocation: %s", src(x))
